@@ -103,6 +103,10 @@ SIMPLE = [
     S("comp-walrus", "{n1} = sum([({n2} := u + {p}) for u in R(E({e1}, 2))])", cur="n2"),
     S("class", ["class {N1}:", "    at = E({e1}, {p})", "{n2} = {N1}.at"], cur="n2"),
     S("expr", "E({e1}, {p})"),
+    S("class-global", ["class {N1}:", "    global G", "    G = E({e1}, {p})", "{n2} = G + 1"], cur="n2"),
+    S("aug-walrus", "{p} += ({n1} := E({e1}, 1))", cur="n1"),
+    S("aug-yield", "{p} += (yield E({e1}, {p})) or 1", gen=True),
+    S("assert", "assert E({e1}, {p}) != 1, E({e2}, 'boom')"),
     S("global-write", ["global G", "G = E({e1}, {p})"]),
     S("global-read", "{n1} = G + E({e1}, {p})", cur="n1"),
     S("nonlocal-write", ["nonlocal c", "c = E({e1}, {p})"], flags=["closure"]),
@@ -144,6 +148,9 @@ COMPOUND = [
     S("with", "with CM(E({e1}, {p})) as {n1}:", bodies=1),
     S("with-tuple", "with CM2(E({e1}, {p})) as ({n1}, {n2}):", bodies=1),
     S("with-noas", "with CM(E({e1}, {p})):", bodies=1, tier="thorough"),
+    S("with-two", "with CM(E({e1}, {p})) as {n1}, CM(E({e2}, {p})) as {n2}:", bodies=1, cur="n2"),
+    S("while-else", "while T({e1}, {p}):", bodies=2, loop=True, body_heads=["else:"]),
+    S("try-except-finally", "try:", bodies=3, body_heads=["except ERR as {n1}:", "finally:"], tier="thorough"),
     S("with-swallow", "with SWALLOW(E({e1}, {p})) as {n1}:", bodies=1, tier="thorough"),
     S("try-nameerror", "try:", bodies=2, body_heads=["except NameError:"], special=True),
 ]
@@ -186,7 +193,7 @@ def statements(ctx, budget, tier, only, depth, maxdepth):
             continue
         head, heads, c2, cur_after = form.instantiate(ctx)
         # body 1 sees names bound by the head (loop target, walrus); later bodies see the except name
-        inner0 = c2._replace(cur=cur_after if form.name in ("for", "for-else", "if-walrus", "while-walrus", "with", "with-swallow") else c2.cur,
+        inner0 = c2._replace(cur=cur_after if form.name in ("for", "for-else", "if-walrus", "while-walrus", "with", "with-swallow", "with-two") else c2.cur,
                              loop=ctx.loop or form.loop)
 
         def fill(k, cstart, left):
@@ -238,6 +245,22 @@ def render(lines, flags, tail=True, sig=None):
     else:
         src = "\n".join(fn) + "\n"
     return src
+
+
+EXTRAS = [
+    # hand-written boundary programs that the statement enumeration cannot produce (empty bodies)
+    ("doc-only", 'def f(x):\n    """Only a docstring."""\n'),
+    ("pass-only", "def f(x):\n    pass\n"),
+    ("doc-and-pass", 'def f(x):\n    """A docstring."""\n    pass\n'),
+    ("ellipsis-only", "def f(x):\n    ...\n"),
+    ("gen-empty", "def f(x):\n    return\n    yield\n"),
+]
+
+
+def extra_programs():
+    for name, src in EXTRAS:
+        fl = frozenset({"gen"}) if "yield" in src else frozenset()
+        yield Prog(src, ("extra-" + name,), fl, 0)
 
 
 def programs(size, tier, only=None, maxdepth=2, must=None, tails=(True,), sigs=(None,)):
